@@ -838,7 +838,9 @@ class Executor:
                     return [(NONE, st)]
             if name == "pop":
                 k = self.lift(args[0])
-                if len(args) > 1:
+                if len(args) > 1 and isinstance(args[1], NoneV):
+                    v = Opt(z3.Not(o.has(k)), self._wrapv(o, o.get(k)))
+                elif len(args) > 1:
                     v = z3.If(o.has(k), o.get(k), self.lift(args[1]))
                 else:
                     self.oblige("exc-free", st, o.has(k), line, "KeyError")
